@@ -32,7 +32,7 @@ impl RecordsBounds {
 
         let end = if key_is_exact {
             Bound::Included(start.clone())
-        } else if increment_by_one(&mut key_end) {
+        } else if prefix_successor(&mut key_end) {
             Bound::Excluded((ns, author, key_end.into()))
         } else if increment_by_one(&mut author_end) {
             Bound::Excluded((ns, author_end, Bytes::new()))
@@ -116,7 +116,7 @@ impl ByKeyBounds {
 
                 let mut ns_end = ns.to_bytes();
                 let mut key_end = prefix.to_vec();
-                let end = if increment_by_one(&mut key_end) {
+                let end = if prefix_successor(&mut key_end) {
                     Bound::Excluded((ns.to_bytes(), key_end.into(), [0u8; 32]))
                 } else if increment_by_one(&mut ns_end) {
                     Bound::Excluded((ns_end, Bytes::new(), [0u8; 32]))
@@ -170,6 +170,23 @@ fn increment_by_one(value: &mut [u8]) -> bool {
         }
     }
     false
+}
+
+/// Turn a variable-length key prefix into the smallest key that is greater than every key
+/// starting with that prefix: drop trailing 255 bytes, then increment the last byte.
+///
+/// Returns false if there is no such key (the prefix is empty or all bytes are 255).
+fn prefix_successor(prefix: &mut Vec<u8>) -> bool {
+    while prefix.last() == Some(&255) {
+        prefix.pop();
+    }
+    match prefix.last_mut() {
+        Some(last) => {
+            *last += 1;
+            true
+        }
+        None => false,
+    }
 }
 
 fn map_bound<'a, T, U: 'a>(bound: &'a Bound<T>, f: impl Fn(&'a T) -> U) -> Bound<U> {
